@@ -70,16 +70,19 @@ def expected_table(text, delim, has_header, width_hint):
     return header, cols, data
 
 
-def run_case(agg, tmpdir, header, records, delim, has_header, how):
+def run_case(agg, tmpdir, header, records, delim, has_header, how, allow_overlong=False):
     from serif import read_csv
     text = make_text(header, records, delim, has_header)
     names, cols, data = expected_table(text, delim, has_header, len(header))
     if names is not None and len(names) == 0:
         agg.skipped["zero-column-file (blank first line)"] += 1
         return
-    if data and any(len(r) > len(names) for r in data):
+    overlong = bool(data) and any(len(r) > len(names) for r in data)
+    if overlong and not allow_overlong:
         agg.skipped["record-longer-than-header"] += 1
         return
+    # (unit 'ragged': what happens to the surplus cells of an over-long record is not stated - refusing the file is accepted there -
+    # but a table that comes back still has one column per header cell, one row per record, and the stated cells)
     case = {"text": text, "delimiter": delim, "has_header": has_header, "input": how}
     py = (f"import io\nfrom serif import read_csv\nt = read_csv(io.StringIO({text!r}, newline=''), delimiter={delim!r}, has_header={has_header})\n"
           f"print(t.column_names(), [list(c) for c in t.cols()])")
@@ -127,6 +130,9 @@ def run_case(agg, tmpdir, header, records, delim, has_header, how):
                         agg.violation(V("read_csv.file", "second-read-of-the-same-handle-differs", case, None, None, py))
                         return
     except Exception as e:
+        if overlong:
+            agg.skipped["file-with-an-over-long-record-refused"] += 1
+            return
         kind = "empty-input" if names is None else ("header-only" if not data else "data")
         agg.violation(V(f"read_csv.{how}", f"raises-{type(e).__name__}-on-{kind}", case, {"names": names, "columns": cols}, repr(e)[:100], py))
         return
@@ -216,6 +222,23 @@ def run_unit(unit):
                                 if how != "stringio" and (delim != "," or nrec == 2 and len(cells) > 12 and records[0] != records[-1]):
                                     continue
                                 run_case(agg, tmpdir, header, records, delim, hh, how)
+        elif what == "ragged":
+            # width-3 headers (plain; and cells holding a line break, the delimiter, quotes) x 1..3 records of 1..4 cells each: short
+            # and over-long records in one file, in every order and combination of lengths
+            _, header = unit
+            for nrec in (1, 2, 3):
+                for lens in itertools.product((1, 2, 3, 4), repeat=nrec):
+                    for variant in ("numbers", "with-blank", "text"):
+                        records = []
+                        for i, L in enumerate(lens):
+                            rec = [str(10 * (i + 1) + j) if variant != "text" else f"t{i}{j}" for j in range(L)]
+                            if variant == "with-blank" and L >= 2:
+                                rec[1] = ""
+                            records.append(tuple(rec))
+                        agg.states += 1; agg.nontrivial += 1
+                        for hh in (True, False):
+                            for how in ("stringio", "path"):
+                                run_case(agg, tmpdir, header, records, ",", hh, how, allow_overlong=True)
         elif what == "w2":
             _, cells, header, first = unit
             for nrec in (0, 1, 2):
@@ -298,6 +321,7 @@ def check(ctx):
     units += [("w1", CELLS_FRAGMENTS, ("h",))]
     units += [("w2", CELLS_FRAGMENTS[:8] + ["", "7"], ("h", "g"), first) for first in CELLS_FRAGMENTS[:8] + ["", "7"]]
     units.append(("empty",))
+    units += [("ragged", h) for h in (("a", "b", "c"), ("unit\nprice", "q,ty", 'say "x"'), ("a", "a", ""))]
     agg = core.merge_all(core.pmap(run_unit, units))
     agg.notes["bound"] = f"width-1 grids over {len(cells1)} cell texts, width-2 grids over {len(cells2)}; <=2 records; inputs: StringIO, path, handle, handle advanced by readline / by next(), pipe"
     agg.notes["exhaustive"] = True
